@@ -514,6 +514,38 @@ pub fn law_c13_dt_fields_roundtrip(v: IntervalDT)
     assert(neg2.v() == n.v());
 }
 
+// the documented ranges are symmetric: a raw count is accepted exactly when its negation is, the
+// accepted value carries the count unchanged, and negating maps accepted values onto accepted values
+pub fn law_c13_raw_range_symmetric(m: i32, u: i64)
+{
+    if m > i32::MIN {
+        let a = IntervalYM::try_from_months(m);
+        let b = IntervalYM::try_from_months(-m);
+        assert(a.is_ok() == b.is_ok());
+        if let Ok(x) = a {
+            let back = x.months();
+            assert(back == m);
+            let n = -x;
+            assert(b.is_ok() && b.unwrap().v() == n.v());
+            let again = IntervalYM::try_from_months(n.months());
+            assert(again.is_ok());
+        }
+    }
+    if u > i64::MIN {
+        let c = IntervalDT::try_from_usecs(u);
+        let e = IntervalDT::try_from_usecs(-u);
+        assert(c.is_ok() == e.is_ok());
+        if let Ok(y) = c {
+            let back = y.usecs();
+            assert(back == u);
+            let n = -y;
+            assert(e.is_ok() && e.unwrap().v() == n.v());
+            let again = IntervalDT::try_from_usecs(n.usecs());
+            assert(again.is_ok());
+        }
+    }
+}
+
 pub fn law_c13_dt_ctor_extract(d: u32, h: u32, mi: u32, s: u32, us: u32)
 {
     let r = IntervalDT::try_from_dhms(d, h, mi, s, us);
